@@ -902,6 +902,59 @@ pub fn main(tier: Tier, replay: Option<Value>) -> i32 {
                     if srs.powers.len() != d + 7 || srs.powers[0] != srs.g {
                         acc.fail("srs", "srs/point-count", format!("setup({}) has {} points or P_0 != g", d, srs.powers.len()), desc.clone());
                     }
+                    // commitments of long polynomials (multi-scalar multiplication switches its
+                    // window / bucket sizes with the number of points) against the explicit sum
+                    if d == 8200 && want("commit") {
+                        match guard(|| k::trim(&pp, 8192)) {
+                            Ok(Ok(keys)) => {
+                                let points = keys.powers();
+                                let lens: Vec<usize> = tier.pick(
+                                    vec![31, 32, 33, 63, 64, 65, 127, 128, 129, 255, 256, 257, 1023, 1024, 1025, 4095, 4096, 4097],
+                                    vec![15, 16, 17, 31, 32, 33, 47, 48, 63, 64, 65, 127, 128, 129, 255, 256, 257, 511, 512, 513, 1023, 1024, 1025, 2047, 2048, 2049, 4095, 4096, 4097, 8191, 8192, 8193, points.len()],
+                                );
+                                let mut jobs: Vec<(usize, &'static str)> = vec![];
+                                for l in lens {
+                                    if l <= points.len() {
+                                        for pat in ["ones", "rho", "top-monomial", "small-ints"] {
+                                            jobs.push((l, pat));
+                                        }
+                                    }
+                                }
+                                let pts = Arc::new(points);
+                                let keys = Arc::new(keys);
+                                for ((l, pat), r) in jobs.iter().zip(par_map(&jobs, |(l, pat)| {
+                                    let c: Vec<Fe> = match *pat {
+                                        "ones" => vec![one(); *l],
+                                        "rho" => rho_vec(*l, 77),
+                                        "top-monomial" => {
+                                            let mut v = vec![zero(); *l];
+                                            v[*l - 1] = one();
+                                            v
+                                        }
+                                        _ => (0..*l).map(|i| fe((i % 7) as u64)).collect(),
+                                    };
+                                    let real = commit_real(&keys, &c);
+                                    let exp = m4::affine(m4::commit(&pts, &m4::trim(&c)).expect("within"));
+                                    (real, exp)
+                                })) {
+                                    let desc = json!({"kernel": "commit", "degree": d, "trim": 8192, "len": l, "pattern": pat});
+                                    match r {
+                                        Err(e) => run.machinery(format!("large commit worker panicked: {}", e)),
+                                        Ok((Ok(Ok(cm)), exp)) => {
+                                            acc.case("commit-large", &format!("len={}", l), Some(fnv(desc.to_string().as_bytes())));
+                                            if cm != exp {
+                                                acc.fail("commit", "commit/not-the-explicit-sum", format!("commit of {} coefficients ({}) differs from Σ c_i·P_i", l, pat), desc);
+                                            } else {
+                                                acc.outcome("commit:equals-explicit-sum");
+                                            }
+                                        }
+                                        Ok((other, _)) => acc.fail("commit", "commit/refuses-within-degree", format!("commit of {} coefficients ({}) failed: {:?}", l, pat, other.map(|x| x.map(|_| ()))), desc),
+                                    }
+                                }
+                            }
+                            _ => run.machinery("large commit section: trim(8192) of setup(8200) failed".into()),
+                        }
+                    }
                     let idx: Vec<usize> = (0..srs.powers.len() - 1).collect();
                     let chunks: Vec<Vec<usize>> = idx.chunks(128).map(|c| c.to_vec()).collect();
                     let srs = Arc::new(srs);
